@@ -79,6 +79,7 @@ class OriginalImage:
                 candidate_names[candidate_name] = []
             candidate_names[candidate_name].append(element)
 
+        assigned_names = set()  # as in the tree after the numbering fix
         for name, subelements in candidate_names.items():
             if len(subelements) == 1:
                 element = subelements[0]
@@ -91,7 +92,7 @@ class OriginalImage:
                 if i > 1:
                     next_name = self._add_count_to_name(name, i)
                     j = 0
-                    while (next_name in candidate_names.keys()):
+                    while (next_name in candidate_names.keys() or next_name in assigned_names):
                         i += 1
                         j += 1
                         next_name = self._add_count_to_name(name, i)
@@ -105,6 +106,7 @@ class OriginalImage:
                 else:
                     next_name = name
                 f_set(element, next_name)
+                assigned_names.add(next_name)
 
         result = elements
         return result
